@@ -96,6 +96,43 @@ CLAIMED = {
              "prefix that is <= the exact rational and less than one unit of the last allowed place below it, without trailing zeros or exponent; 0 and inf cases; no panic.",
         note="Float path compared with 1e-11 relative tolerance; only default (table) formatting is judged.",
         ref="5 (C18)"),
+    "C13": dict(
+        technique="runtime monitoring: per-case filter reference model vs. executed set (invocation log) and printed leaf set of the real runner on synthetic registries; Miri on the SplitVec/FilterSet probe",
+        text="For every explored (registry, filter set) the set of cases that ran and the set of leaves shown equal the cases the reference rule selects per case (no skip match and "
+             "no positive filter or some positive match; regex search or whole-string equality), inner nodes appear exactly above selected cases; filters via CLI and builder.",
+        note="Regex filters restricted to syntax on which Python re and regex-lite agree; macro-generated paths are covered by the generated-crate check (C12).",
+        ref="6 (C13)"),
+    "C14": dict(
+        technique="runtime monitoring: empty-invocation-log monitor under all list actions; differential comparison of the terse listing with a twin --test run; --exact round trips",
+        text="Under --list, terse listing and Divan::list_benches no benchmark body or Bencher closure ran; the terse lines equal, as a multiset, the cases the twin --test run with "
+             "the same filters / ignore flags executed; sampled listed paths fed back as the only --exact filter select exactly that case.",
+        note="args evaluation during tree construction is not an invocation; round trips only on unique paths.",
+        ref="6 (C14)"),
+    "C15": dict(
+        technique="runtime monitoring: per-field resolution model vs. observed calls per thread, thread branches, samples/iters, counter rows and (ignored) marks of the real runner under the virtual clock",
+        text="For every explored assignment of {unset, value} at runner (CLI / DIVAN_* / builder, with lower-priority decoys), benchmark and up to three groups, the observed calls per "
+             "thread, t=N branches, samples/iters figures, throughput rows per counter kind (Bencher::counter replacing only its kind) and ignore marks equal what the per-field rule gives.",
+        note="min/max/skip_ext_time observables only on single-thread runs (elapsed time is deterministic there); macro attribute syntax is covered by the generated-crate check.",
+        ref="6 (C15)"),
+    "C16": dict(
+        technique="runtime monitoring: independent comparators applied to parsed sibling/argument sequences of the real output under every --sort/--sortr; pair/triple/sort oracle on the real comparators; Miri on the tokenizer",
+        text="Every printed sibling sequence and argument sequence is non-descending (exactly reversed under --sortr) under an independent three-key comparator; natural_cmp and the "
+             "argument comparator agree with the model on tens of thousands of pairs, are antisymmetric and transitive, and whole-list sorts are permutations.",
+        note="Two genuine residual deviations are listed in known_findings.json (distinct entries at one source position; '-0' vs zero).",
+        ref="6 (C16)"),
+    "C17": dict(
+        technique="runtime monitoring: printed row label vs. the value / type / const the body actually received (invocation log zipped with printed order) under sorts and filters; BenchArgs probe natively and under Miri",
+        text="For every explored run each printed row's label equals the rendering of the argument, the const value and the type the body received; argument lists were evaluated at "
+             "most once per process; the type-erased argument slice hands index i the i-th value (probe incl. borrowed string slices, owned strings, ZSTs, empty lists) also under Miri.",
+        note="Synthetic bodies identify themselves through a slot table; the macro-generated pairing of body and label is covered by the generated-crate check (C12).",
+        ref="6 (C17)"),
+    "C20": dict(
+        technique="runtime monitoring: the real stdout parsed back into a tree + table from glyphs/indentation alone and compared with the expected forest and, under the virtual clock, with the expected cells",
+        text="Every explored output parses back unambiguously, glyphs and bars encode each node's true position, every expected group / benchmark / argument / thread branch appears exactly "
+             "once and nothing else, every statistics row splits into six cells equal to the model rendering of the expected statistics, continuation rows (throughput, max alloc, "
+             "alloc, dealloc) follow their benchmark and appear iff non-zero, ignored leaves are marked and not run; no NaN; actions bench, test, list.",
+        note="Cells matched by order between separators, not by screen column; sortedness itself is C16's verdict.",
+        ref="6 (C20)"),
 }
 
 NOT_YET = {}
@@ -144,7 +181,7 @@ def main():
         "checks": checks,
         "not_applicable": na,
         "notes": "Runtime monitoring and sanitizers only. Exit 0 = held on what was observed, 1 = VIOLATION line, 2 = observed too little / harness error (never folded into either verdict). "
-                 "known_findings.json lists genuine defects (two so far, both repaired by fix: commits in /repo).",
+                 "known_findings.json lists the genuine defects found (fixed ones with their fix: commit; open ones keyed on exact signatures).",
     }
     with open(os.path.join(VERIF, "MANIFEST.json"), "w") as f:
         json.dump(m, f, indent=1)
